@@ -262,7 +262,7 @@ fn handle(w: &mut impl Write, line: &str) {
                                 }
                             }
                         };
-                        out(w, &format!("FMT OK {verdict} {}", sx::q(&text)));
+                        out(w, &format!("FMT OK {} {verdict}", sx::q(&text)));
                     }
                 },
             }
